@@ -103,13 +103,36 @@ func txTable(es []txEntry) string {
 	return hx.CoqList(items)
 }
 
+// fingerprint: must agree with [fp] in coq/Corr/C20.v
+func fingerprint(x []byte) (int, []byte) {
+	cut := func(lo, n int) []byte {
+		if lo > len(x) {
+			lo = len(x)
+		}
+		hi := lo + n
+		if hi > len(x) {
+			hi = len(x)
+		}
+		return x[lo:hi]
+	}
+	last := len(x) - 4
+	if last < 0 {
+		last = 0
+	}
+	f := append([]byte(nil), cut(0, 4)...)
+	f = append(f, cut(32, 4)...)
+	f = append(f, cut(last, 4)...)
+	return len(x), f
+}
+
 func hashTable(t *hashTab, real bool) string {
 	if real {
 		return "None"
 	}
 	var items []string
 	for i := range t.keys {
-		items = append(items, fmt.Sprintf("(%s, %s)", hx.CoqBytes(t.keys[i]), hx.CoqBytes(t.vals[i])))
+		n, f := fingerprint(t.keys[i])
+		items = append(items, fmt.Sprintf("(%s, %s, %s)", hx.CoqNat(n), hx.CoqBytes(f), hx.CoqBytes(t.vals[i])))
 	}
 	return "(Some " + hx.CoqList(items) + ")"
 }
@@ -157,15 +180,19 @@ func runBlock(c *hx.Ctx, b []byte) blockResult {
 	return r
 }
 
-func bresCoq(r blockResult, sc scan) string {
+func bresCoq(r blockResult, sc scan, b []byte) string {
 	if !r.ok {
 		return fmt.Sprintf("(BErr %d)", r.code)
 	}
 	var ids []string
 	for _, id := range r.ids {
-		ids = append(ids, hx.CoqBytes(id))
+		ids = append(ids, hx.CoqBytes(id[:4]))
 	}
-	return fmt.Sprintf("(BOk %s %s %s %s %d %d)", hx.CoqNat(r.consumed), hx.CoqBytes(r.reenc), hx.CoqBytes(r.hash), hx.CoqList(ids), sc.nkeys, sc.nsigs)
+	re := "None"
+	if r.consumed > len(b) || !bytes.Equal(r.reenc, b[:r.consumed]) {
+		re = "(Some " + hx.CoqBytes(r.reenc) + ")"
+	}
+	return fmt.Sprintf("(BOk %s %s %s %s %d %d)", hx.CoqNat(r.consumed), re, hx.CoqBytes(r.hash), hx.CoqList(ids), sc.nkeys, sc.nsigs)
 }
 
 // evalBlock runs one input through Block.Deserialization, applies the oracles that need no
@@ -196,7 +223,13 @@ func evalBlock(c *hx.Ctx, label string, b []byte, realHash bool, emit bool) bloc
 			ids = append(ids, e.id)
 			p += e.n
 		}
-		if all && cnt < 300 {
+		dup := false
+		seenID := map[string]bool{}
+		for _, id := range ids {
+			dup = dup || seenID[string(id)]
+			seenID[string(id)] = true
+		}
+		if all && !dup && cnt < 300 {
 			ownMerkle(ht, ids)
 		}
 	}
@@ -207,11 +240,11 @@ func evalBlock(c *hx.Ctx, label string, b []byte, realHash bool, emit bool) bloc
 	if r.ok {
 		c.Count("result:accepted")
 		if !sc.ok {
-			c.Fail("driver:scanner-disagrees", "independent header scanner accepts what the implementation accepts", in, "accepted", "scanner rejected")
-			return r
+			// the independent scanner accepts exactly the well-formed, minimally encoded headers
+			c.Fail("canon:malformed-header-accepted", "a block decoded from bytes re-encodes to the same bytes (header counts and lengths minimally encoded, inside the input)", in, "accepted", "rejected")
 		}
 		// (1) round trip on the consumed bytes
-		if !bytes.Equal(r.reenc, b[:r.consumed]) {
+		if sc.ok && !bytes.Equal(r.reenc, b[:r.consumed]) {
 			class := "roundtrip:other"
 			switch {
 			case sc.nkeys >= 1<<63 || sc.nsigs >= 1<<63:
@@ -239,14 +272,14 @@ func evalBlock(c *hx.Ctx, label string, b []byte, realHash bool, emit bool) bloc
 				hx.Hex(r.blk.Header.TransactionsRoot[:]), hx.Hex(want))
 		}
 		// (3) block hash = sha256d of the unsigned header bytes as they stand in the input
-		if want := sha256d(b[:sc.unsignedEnd]); !bytes.Equal(want, r.hash) {
+		if want := sha256d(b[:sc.unsignedEnd]); sc.ok && !bytes.Equal(want, r.hash) {
 			c.Fail("hash:not-unsigned-header", "block hash is the double SHA-256 of exactly the unsigned header fields", in, hx.Hex(r.hash), hx.Hex(want))
 		}
 	} else {
 		c.Count(fmt.Sprintf("result:err%d", r.code))
 	}
 	if emit {
-		c.Case(fmt.Sprintf("CBlock %s %s %s %s %s", hx.CoqBytes(b), pkTable(sc.rawKeys), txTable(txs), hashTable(ht, realHash), bresCoq(r, sc)), in)
+		c.Case(fmt.Sprintf("CBlock %s %s %s %s %s", hx.CoqBytes(b), pkTable(sc.rawKeys), txTable(txs), hashTable(ht, realHash), bresCoq(r, sc, b)), in)
 	}
 	c.Count("gen:" + strings.SplitN(label, "/", 2)[0])
 	return r
@@ -276,16 +309,17 @@ func evalHeader(c *hx.Ctx, label string, b []byte) {
 	} else {
 		c.Count("header:accepted")
 		if !sc.ok {
-			c.Fail("driver:scanner-disagrees", "independent header scanner accepts what the implementation accepts", in, "accepted", "scanner rejected")
-			return
+			c.Fail("canon:malformed-header-accepted", "a block decoded from bytes re-encodes to the same bytes (header counts and lengths minimally encoded, inside the input)", in, "accepted", "rejected")
 		}
 		h := hd.Hash()
 		r.ok, r.consumed, r.reenc, r.hash = true, int(src.Pos()), hd.ToArray(), h[:]
-		ht.h(b[:sc.unsignedEnd])
-		if want := sha256d(b[:sc.unsignedEnd]); !bytes.Equal(want, r.hash) {
+		if sc.ok {
+			ht.h(b[:sc.unsignedEnd])
+		}
+		if want := sha256d(b[:sc.unsignedEnd]); sc.ok && !bytes.Equal(want, r.hash) {
 			c.Fail("hash:not-unsigned-header", "block hash is the double SHA-256 of exactly the unsigned header fields", in, hx.Hex(r.hash), hx.Hex(want))
 		}
-		if !bytes.Equal(r.reenc, b[:r.consumed]) {
+		if sc.ok && !bytes.Equal(r.reenc, b[:r.consumed]) {
 			class := "roundtrip:other"
 			if sc.nkeys >= 1<<63 || sc.nsigs >= 1<<63 {
 				class = "roundtrip:count-ge-2^63"
@@ -300,7 +334,7 @@ func evalHeader(c *hx.Ctx, label string, b []byte) {
 			c.Fail(class, "a block decoded from bytes re-encodes to the same bytes", in, hx.Hex(r.reenc), hx.Hex(b[:r.consumed]))
 		}
 	}
-	c.Case(fmt.Sprintf("CHeader %s %s %s %s", hx.CoqBytes(b), pkTable(sc.rawKeys), hashTable(ht, false), bresCoq(r, sc)), in)
+	c.Case(fmt.Sprintf("CHeader %s %s %s %s", hx.CoqBytes(b), pkTable(sc.rawKeys), hashTable(ht, false), bresCoq(r, sc, b)), in)
 }
 
 // evalMerkle: common.ComputeMerkleRoot against the own implementation and the model.
